@@ -1,5 +1,5 @@
-"""Mutants for C15 (automata wiring / grammars).  Run with the three known TermCap keys tolerated:
-     VERIF_KNOWN_EXTRA=<file with the finding: lines> python3 selftest/run.py C15
+"""Mutants for C15 (automata wiring / grammars), based on /repo at 3497bfa (NFA::optional allocates fresh states).
+     python3 selftest/run.py C15
 edits: (file, old text occurring exactly once, new text)."""
 
 A = "src/automata.rs"
@@ -65,16 +65,9 @@ _MANY_RENAMED = """    pub fn many(self) -> Self {
     }
 """
 
-_OPTIONAL_OLD = """    pub fn optional(mut self) -> Self {
-        if let Some(start) = self.states.get_mut(&self.start) {
-            start.epsilons.insert(self.stop);
-        }
-        self
-    }
-"""
-
-_OPTIONAL_FRESH = """    pub fn optional(self) -> Self {
-        // fresh start/stop (ids 0 and 1) in front of the operand, like `many` without the back edge
+_OPTIONAL_CUR = """    pub fn optional(self) -> Self {
+        // fresh start and stop states are required: adding `start -> stop` in place
+        // accepts prefixes that re-enter `start` (`(a+ b)?` would accept `a`)
         let (mut states, ends) = Self::merge_states(once(self), 2);
         let (from, to) = ends[0];
 
@@ -97,18 +90,50 @@ _OPTIONAL_FRESH = """    pub fn optional(self) -> Self {
     }
 """
 
-_OPTIONAL_FRESH_NO_EXIT = _OPTIONAL_FRESH.replace("""        if let Some(to_state) = states.get_mut(&to) {
-            to_state.epsilons.insert(stop);
-        }
-""", "        let _ = to;\n")
-
-_OPTIONAL_RENAMED = """    pub fn optional(mut self) -> Self {
-        if let Some(first) = self.states.get_mut(&self.start) {
-            first.epsilons.insert(self.stop);
+# the implementation before repo commit 3497bfa (in place start -> stop)
+_OPTIONAL_INPLACE = """    pub fn optional(mut self) -> Self {
+        if let Some(start) = self.states.get_mut(&self.start) {
+            start.epsilons.insert(self.stop);
         }
         self
     }
 """
+
+_OPTIONAL_NO_EXIT = _OPTIONAL_CUR.replace("""        if let Some(to_state) = states.get_mut(&to) {
+            to_state.epsilons.insert(stop);
+        }
+""", "        let _ = to;\n")
+assert _OPTIONAL_NO_EXIT != _OPTIONAL_CUR
+
+_OPTIONAL_NO_SKIP = _OPTIONAL_CUR.replace("        start_state.epsilons.insert(stop);\n", "")
+assert _OPTIONAL_NO_SKIP != _OPTIONAL_CUR
+
+_OPTIONAL_RENAMED = """    pub fn optional(self) -> Self {
+        let (mut merged, ends) = Self::merge_states(once(self), 2);
+        let (inner_start, inner_stop) = ends[0];
+
+        let entry_id = NFAStateId(0);
+        let exit_id = NFAStateId(1);
+        if let Some(last) = merged.get_mut(&inner_stop) {
+            last.epsilons.insert(exit_id);
+        }
+        let mut entry = NFAState::new();
+        entry.epsilons.insert(exit_id);
+        entry.epsilons.insert(inner_start);
+        merged.insert(exit_id, NFAState::new());
+        merged.insert(entry_id, entry);
+
+        Self {
+            start: entry_id,
+            stop: exit_id,
+            states: merged,
+        }
+    }
+"""
+
+_DEVATTR_OLD = "(NFA::number() + NFA::from(\";\").optional()).some(),"
+_CURSOR_OLD = "            NFA::from(\"\\x1b[\"),\n            NFA::number(),\n            NFA::from(\";\"),\n            NFA::number(),\n            NFA::from(\"R\"),"
+_CURSOR_NEW = "            NFA::from(\"\\x1b[\"),\n            (NFA::from(\";\") + NFA::number()).optional(),\n            NFA::from(\";\"),\n            NFA::number(),\n            NFA::from(\"R\"),"
 
 MUTANTS = [
     # ---------------- R1: wiring templates ----------------
@@ -138,7 +163,8 @@ MUTANTS = [
      "edits": [(A, "        start_state.epsilons.insert(from);\n        start_state.epsilons.insert(stop);\n        if let Some(to_state) = states.get_mut(&to) {\n            to_state.epsilons.insert(stop);\n            to_state.epsilons.insert(from);",
                 "        start_state.epsilons.insert(from);\n        if let Some(to_state) = states.get_mut(&to) {\n            to_state.epsilons.insert(stop);\n            to_state.epsilons.insert(from);")]},
     {"id": "C15-many-fresh-ids-collide", "prop": "C15", "expect": "R1-WIRING/automata::NFA::many/not-understood",
-     "edits": [(A, "        let (mut states, ends) = Self::merge_states(once(self), 2);", "        let (mut states, ends) = Self::merge_states(once(self), 1);")]},
+     "edits": [(A, "        // add offset of 2 to state ids\n        let (mut states, ends) = Self::merge_states(once(self), 2);",
+                "        // add offset of 2 to state ids\n        let (mut states, ends) = Self::merge_states(once(self), 1);")]},
     {"id": "C15-predicate-negated", "prop": "C15", "expect": "R1-WIRING/automata::NFA::predicate",
      "edits": [(A, "            if pred(symbol) {", "            if !pred(symbol) {")]},
     {"id": "C15-predicate-swapped-ends", "prop": "C15", "expect": "R1-WIRING/automata::NFA::predicate",
@@ -168,15 +194,22 @@ MUTANTS = [
     # ---------------- R2 / R3: shape typing and languages ----------------
     {"id": "C15-many-in-place", "prop": "C15", "expect": "R2-SHAPE/decoder::KittyImageMatcher::matcher/many#1:operand-stop-has-out-edge",
      "edits": [(A, _MANY_OLD, _MANY_INPLACE)]},
-    {"id": "C15-optional-on-unclean-operand", "prop": "C15", "expect": "R2-SHAPE/decoder::DeviceAttrsMatcher::matcher/optional#1:operand-start-has-in-edge",
-     "edits": [(D, "(NFA::number() + NFA::from(\";\").optional()).some(),", "(NFA::number() + NFA::from(\";\")).optional().some(),")]},
-    {"id": "C15-optional-on-unclean-stop", "prop": "C15", "expect": "R2-SHAPE/decoder::CursorPositionMatcher::matcher/optional#1:operand-stop-has-out-edge",
-     "edits": [(D, "            NFA::from(\"\\x1b[\"),\n            NFA::number(),\n            NFA::from(\";\"),\n            NFA::number(),\n            NFA::from(\"R\"),",
-                "            NFA::from(\"\\x1b[\"),\n            (NFA::from(\";\") + NFA::number()).optional(),\n            NFA::from(\";\"),\n            NFA::number(),\n            NFA::from(\"R\"),")]},
-    {"id": "C15-optional-on-unclean-language", "prop": "C15", "expect": "R3-LANG/DeviceAttrsMatcher/asbuilt!=regex",
-     "edits": [(D, "(NFA::number() + NFA::from(\";\").optional()).some(),", "(NFA::number() + NFA::from(\";\")).optional(),")]},
+    {"id": "C15-orig-optional-inplace", "prop": "C15", "expect": "R2-SHAPE/decoder::TermCapMatcher::matcher/optional#1:operand-start-has-in-edge",
+     "edits": [(A, _OPTIONAL_CUR, _OPTIONAL_INPLACE)]},
+    {"id": "C15-orig-optional-inplace-language", "prop": "C15", "expect": "R3-LANG/TermCapMatcher/asbuilt!=regex",
+     "edits": [(A, _OPTIONAL_CUR, _OPTIONAL_INPLACE)]},
+    {"id": "C15-inplace-optional-on-unclean-operand", "prop": "C15", "expect": "R2-SHAPE/decoder::DeviceAttrsMatcher::matcher/optional#1:operand-start-has-in-edge",
+     "edits": [(A, _OPTIONAL_CUR, _OPTIONAL_INPLACE), (D, _DEVATTR_OLD, "(NFA::number() + NFA::from(\";\")).optional().some(),")]},
+    {"id": "C15-inplace-optional-on-unclean-stop", "prop": "C15", "expect": "R2-SHAPE/decoder::CursorPositionMatcher::matcher/optional#1:operand-stop-has-out-edge",
+     "edits": [(A, _OPTIONAL_CUR, _OPTIONAL_INPLACE), (D, _CURSOR_OLD, _CURSOR_NEW)]},
+    {"id": "C15-inplace-optional-on-unclean-language", "prop": "C15", "expect": "R3-LANG/DeviceAttrsMatcher/asbuilt!=regex",
+     "edits": [(A, _OPTIONAL_CUR, _OPTIONAL_INPLACE), (D, _DEVATTR_OLD, "(NFA::number() + NFA::from(\";\")).optional(),")]},
     {"id": "C15-optional-fresh-without-exit", "prop": "C15", "expect": "R1-WIRING/automata::NFA::optional/not-thompson",
-     "edits": [(A, _OPTIONAL_OLD, _OPTIONAL_FRESH_NO_EXIT)]},
+     "edits": [(A, _OPTIONAL_CUR, _OPTIONAL_NO_EXIT)]},
+    {"id": "C15-optional-fresh-without-skip", "prop": "C15", "expect": "R1-WIRING/automata::NFA::optional/not-thompson",
+     "edits": [(A, _OPTIONAL_CUR, _OPTIONAL_NO_SKIP)]},
+    {"id": "C15-optional-fresh-without-skip-language", "prop": "C15", "expect": "R3-LANG/DeviceAttrsMatcher/asbuilt!=regex",
+     "edits": [(A, _OPTIONAL_CUR, _OPTIONAL_NO_SKIP)]},
     {"id": "C15-grammar-accepts-empty", "prop": "C15", "expect": "R3-LANG/GraphicRenditionMatcher/accepts-empty",
      "edits": [(D, "            NFA::from(\"\\x1b[\"),\n            (code + NFA::from(\";\").optional()).some(),\n            NFA::from(\"m\"),\n        ]);",
                 "            NFA::from(\"\\x1b[\"),\n            (code + NFA::from(\";\").optional()).some(),\n            NFA::from(\"m\"),\n        ])\n        .optional();")]},
@@ -202,10 +235,13 @@ MUTANTS = [
      "edits": [(A, "                if let Some(tag) = self.states.get(nfa_state_id).and_then(|s| s.tag.clone()) {",
                 "                if let Some(tag) = self.states.get(&self.stop).filter(|_| nfa_state_id == &self.stop).and_then(|s| s.tag.clone()) {")]},
     # ---------------- benign edits (must stay silent) ----------------
-    {"id": "C15-benign-optional-fresh-states", "prop": "C15", "benign": True,
-     "edits": [(A, _OPTIONAL_OLD, _OPTIONAL_FRESH)]},
-    {"id": "C15-benign-optional-rename-local", "prop": "C15", "benign": True,
-     "edits": [(A, _OPTIONAL_OLD, _OPTIONAL_RENAMED)]},
+    {"id": "C15-benign-optional-rename-reorder", "prop": "C15", "benign": True,
+     "edits": [(A, _OPTIONAL_CUR, _OPTIONAL_RENAMED)]},
+    {"id": "C15-benign-some-rename-local", "prop": "C15", "benign": True,
+     "edits": [(A, "        if let Some(stop) = self.states.get_mut(&self.stop) {\n            stop.epsilons.insert(self.start);",
+                "        if let Some(last) = self.states.get_mut(&self.stop) {\n            last.epsilons.insert(self.start);")]},
+    {"id": "C15-benign-grammar-optional-on-unclean-operand", "prop": "C15", "benign": True,
+     "edits": [(D, _CURSOR_OLD, _CURSOR_NEW)]},
     {"id": "C15-benign-many-rename-reorder", "prop": "C15", "benign": True,
      "edits": [(A, _MANY_OLD, _MANY_RENAMED)]},
     {"id": "C15-benign-merge-offset-spelled-out", "prop": "C15", "benign": True,
